@@ -1,6 +1,7 @@
 package node
 
 import (
+	"math"
 	"context"
 	"fmt"
 	"math/rand"
@@ -52,6 +53,7 @@ type c07 struct {
 	msgs   []*c07msg
 	ncells int
 	nser   int
+	hist   bool // every third row also carries a histogram
 
 	// incarnation state
 	inc     int
@@ -141,6 +143,7 @@ func genC07(rng *rand.Rand, tier string) *core.Plan {
 	}
 	p.Ops = append(p.Ops, core.Op{K: "flushwait"}, core.Op{K: "gc"}, core.Op{K: "append", A: 1, B: 1}, core.Op{K: "check"})
 	p.Cfg["maporder"] = rng.Intn(2) // tape-chosen iteration order of Go maps in the code under test
+	p.Cfg["hist"] = rng.Intn(2)     // every third row also carries a histogram
 	return p
 }
 
@@ -154,9 +157,15 @@ func (h *c07) message(nrows int) ([]byte, *c07msg, error) {
 		n := h.ncells
 		h.ncells++
 		m.cells = append(m.cells, n)
-		blk, err := rows.Block(rows.Point{Name: "m", Tags: map[string]string{"id": h.cellSeries(n), "host": "h" + fmt.Sprint(n%2)},
+		pt := rows.Point{Name: "m", Tags: map[string]string{"id": h.cellSeries(n), "host": "h" + fmt.Sprint(n%2)},
 			Timestamp: Jan1 + int64(n)*10000 + int64(n%3)*3000,
-			Fields:    []rows.Field{{Name: "fsum", Type: protoMetricsV1.SimpleFieldType_DELTA_SUM, Value: 1}}})
+			Fields:    []rows.Field{{Name: "fsum", Type: protoMetricsV1.SimpleFieldType_DELTA_SUM, Value: 1}}}
+		if h.hist && n%3 == 0 {
+			// the row also carries a histogram (eight more fields of the metric): its count must be applied exactly
+			// as often as the row's sum field
+			pt.Hist = &rows.Hist{Bounds: []float64{1, 5, 10, math.Inf(1)}, Values: []float64{1, 0, 2, 1}, Min: 0, Max: 1, Sum: 1, Count: 1}
+		}
+		blk, err := rows.Block(pt)
 		if err != nil {
 			return nil, nil, err
 		}
@@ -328,7 +337,11 @@ func (h *c07) check(when string) {
 	defer func() { h.armed = armed }()
 	all := [][]int{{0}}
 	c.Sim.Event("  check %s at %v", when, c.Sim.Elapsed())
-	rs, err := h.node.Query(h.db, "select fsum from m where time>='2000-01-01 00:00:00' and time<='2000-01-01 00:59:59' group by id,time(10s)", Layout{Leaves: all})
+	cols := "fsum"
+	if h.hist {
+		cols = "fsum,HistogramCount"
+	}
+	rs, err := h.node.Query(h.db, "select "+cols+" from m where time>='2000-01-01 00:00:00' and time<='2000-01-01 00:59:59' group by id,time(10s)", Layout{Leaves: all})
 	c.Oracle()
 	got := map[int]float64{}
 	if err != nil {
@@ -349,6 +362,28 @@ func (h *c07) check(when string) {
 				}
 				got[n] = v
 			}
+		}
+		// the fields of one row are applied together: the histogram count of a cell reads what its sum field reads
+		for _, s := range rs.Series {
+			if !h.hist {
+				break
+			}
+			hc := s.Fields["HistogramCount"]
+			for ts, v := range s.Fields["fsum"] {
+				n := int((ts - Jan1) / 10000)
+				if n%3 == 0 && hc[ts] != v {
+					c.Violate("C07/fields-of-one-row-differ", "%s: cell %d (series %v): fsum reads %v, HistogramCount of the same row reads %v", when, n, s.Tags, v, hc[ts])
+					return
+				}
+			}
+			for ts, v := range hc {
+				n := int((ts - Jan1) / 10000)
+				if n < 0 || n >= h.ncells || n%3 != 0 || s.Fields["fsum"][ts] != v {
+					c.Violate("C07/fields-of-one-row-differ", "%s: cell %d (series %v): HistogramCount reads %v, fsum of the same row reads %v", when, n, s.Tags, v, s.Fields["fsum"][ts])
+					return
+				}
+			}
+			c.Sim.Probe("histogram-cells-checked")
 		}
 	}
 	dump := func() {
@@ -403,7 +438,7 @@ func (h *c07) crashNow(what string) {
 
 func runC07(c *core.RunCtx) {
 	sim := c.Sim
-	h := &c07{c: c, sim: sim, db: "w" + NewTag(c), nser: c.Plan.C("nseries", 3), garbage: map[int64]bool{},
+	h := &c07{c: c, sim: sim, db: "w" + NewTag(c), nser: c.Plan.C("nseries", 3), hist: c.Plan.C("hist", 0) == 1, garbage: map[int64]bool{},
 		crashFS: float64(c.Plan.C("crash_fs_pm", 0)) / 1000, crashY: float64(c.Plan.C("crash_y_pm10", 0)) / 10000}
 	pre := func(op, path string) {
 		if !h.armed || h.dead || sim.CurInc() != h.inc {
